@@ -95,7 +95,7 @@ def seeded(argv):
     rows, bad = [], 0
     for sid in sorted(os.listdir(base)) if os.path.isdir(base) else []:
         meta_p = os.path.join(base, sid, "meta.json")
-        if not os.path.exists(meta_p) or (only and sid not in only):
+        if not os.path.exists(meta_p) or (only and not any(sid == o or sid.startswith(o + "-") for o in only)):
             continue
         meta = kernel.read_json(meta_p)
         root = make_copy()
@@ -144,7 +144,7 @@ def benign(argv):
     rows, bad = [], 0
     for sid in sorted(os.listdir(base)) if os.path.isdir(base) else []:
         meta_p = os.path.join(base, sid, "meta.json")
-        if not os.path.exists(meta_p) or (only and sid not in only):
+        if not os.path.exists(meta_p) or (only and not any(sid == o or sid.startswith(o + "-") for o in only)):
             continue
         meta = kernel.read_json(meta_p)
         root = make_copy()
